@@ -624,7 +624,8 @@ GEN["C06"] = gen_C06
 
 CORRUPTIONS = [None, None, {"kind": "no_index"}, {"kind": "missing_member", "idx": 0}, {"kind": "missing_member", "idx": 1},
                {"kind": "truncate", "frac": 0.1}, {"kind": "truncate", "frac": 0.5}, {"kind": "truncate", "frac": 0.9},
-               {"kind": "garbage"}, {"kind": "index_not_sqlite"}, {"kind": "index_empty"}]
+               {"kind": "garbage"}, {"kind": "index_not_sqlite"}, {"kind": "index_empty"},
+               {"kind": "escape_dotdot", "idx": 0}, {"kind": "escape_symlink", "idx": 1}]
 
 
 def gen_C12(r):
